@@ -18,8 +18,27 @@ import (
 	"verif/internal/vt"
 )
 
+// excl notes that a known finding narrowed the current case; each finding is
+// counted at most once per case (flushExcl, called by the tests).
+var exclSet = map[string]bool{}
+
+func excl(id string) { exclSet[id] = true }
+
+func flushExcl() {
+	ids := make([]string, 0, len(exclSet))
+	for id := range exclSet {
+		ids = append(ids, id)
+		delete(exclSet, id)
+	}
+	sort.Strings(ids)
+	for _, id := range ids {
+		vt.Excluded(id)
+	}
+}
+
 type pathStats struct {
 	star, index, intKey, strKey, field, byID, bigID, negID, typedef, trailStar, structStar bool
+	reachTD                                                                             bool // a path ends at or passes through a typedef'd type
 	maxDepth                                                                            int
 }
 
@@ -54,6 +73,9 @@ func (st *pathStats) add(sc *schema, root shape, steps []pstep) {
 			st.intKey = true
 		}
 		cur = stepShape(sc, cur, s)
+		if cur.td {
+			st.reachTD = true
+		}
 	}
 }
 
@@ -99,7 +121,7 @@ func (g *pgen) strs(label string) []string {
 	for i := range out {
 		if rapid.IntRange(0, 7).Draw(g.rt, label+"_odd") == 0 {
 			if g.k[fStrKeyJSON] {
-				vt.Excluded(fStrKeyJSON)
+				excl(fStrKeyJSON)
 			} else {
 				out[i] = rapid.SampledFrom(oddStrPool).Draw(g.rt, label)
 				continue
@@ -124,7 +146,7 @@ func (g *pgen) step(cur shape, allowStructStar, allowStar bool) (s pstep, ok boo
 	case kStruct:
 		fs := g.usableFields(cur.st)
 		if len(fs) < len(cur.st.fields) {
-			vt.Excluded(fNegID)
+			excl(fNegID)
 		}
 		if len(fs) == 0 {
 			return s, false
@@ -184,7 +206,7 @@ func (g *pgen) genPath(maxDepth int, allowStructStar, allowStar bool) []pstep {
 	}
 	cur := g.shapeAfter(steps)
 	for len(steps) < maxDepth {
-		if len(steps) > 0 && rapid.IntRange(0, 3).Draw(g.rt, "stop") == 0 {
+		if len(steps) > 0 && rapid.IntRange(0, 4).Draw(g.rt, "stop") == 0 {
 			break
 		}
 		s, ok := g.step(cur, allowStructStar, allowStar)
@@ -259,7 +281,7 @@ func (g *pgen) genWalk(root *rnode) walkInfo {
 					if !g.k[fNegID] {
 						pool = append(pool, negIDPool...)
 					} else {
-						vt.Excluded(fNegID)
+						excl(fNegID)
 					}
 					q = qkey{K: "f", I: rapid.SampledFrom(pool).Draw(g.rt, "fid")}
 					f = fieldByID(cur.st, q.I)
@@ -330,7 +352,7 @@ func (g *pgen) genWalk(root *rnode) walkInfo {
 				mq = qkey{K: "s", S: "a"}
 			}
 			if cur.kind != kStruct && g.k[fFieldNonStruct] {
-				vt.Excluded(fFieldNonStruct)
+				excl(fFieldNonStruct)
 			}
 			w.keys = append(w.keys, mq)
 			w.mismatch = true
@@ -381,13 +403,13 @@ func judgeSkips(k knownSet, f skipFacts) []string {
 		}
 	}
 	if k[fStringTypedef] && typedefs {
-		vt.Excluded(fStringTypedef)
+		excl(fStringTypedef)
 		s = append(s, skipString)
 	} else if k[fNegID] && negIDs {
-		vt.Excluded(fNegID)
+		excl(fNegID)
 		s = append(s, skipString)
 	} else if k[fStringNested] && f.starNested {
-		vt.Excluded(fStringNested)
+		excl(fStringNested)
 		s = append(s, skipString)
 	}
 	return s
@@ -451,8 +473,11 @@ func genMaskCase(rt *rapid.T) (maskCase, pathStats) {
 	root := newRnode(kStruct)
 	any := false
 	np := rapid.IntRange(0, 7).Draw(rt, "npaths")
+	if np == 0 && rapid.IntRange(0, 3).Draw(rt, "really_empty") > 0 {
+		np = 1
+	}
 	if np == 0 && k[fEmptyRoundTrip] {
-		vt.Excluded(fEmptyRoundTrip)
+		excl(fEmptyRoundTrip)
 		np = 1
 	}
 	conflict := false
@@ -461,7 +486,7 @@ func genMaskCase(rt *rapid.T) (maskCase, pathStats) {
 		if !c.Black && rapid.IntRange(0, 39).Draw(rt, "bare_root") == 0 {
 			steps = nil
 		} else {
-			steps = g.genPath(rapid.IntRange(1, 5).Draw(rt, "maxdepth"), allowStructStar, true)
+			steps = g.genPath(rapid.IntRange(1, 6).Draw(rt, "maxdepth"), allowStructStar, true)
 			if len(steps) == 0 {
 				continue
 			}
@@ -491,7 +516,7 @@ func genMaskCase(rt *rapid.T) (maskCase, pathStats) {
 	for _, p := range g.paths {
 		c.Paths = append(c.Paths, renderPath(p))
 	}
-	c.Skip = judgeSkips(k, skipFacts{len(sc.typedefs) > 0, len(sc.negNames()) > 0, starNested(g.paths)})
+	c.Skip = judgeSkips(k, skipFacts{st.reachTD || (st.structStar && len(sc.typedefs) > 0), len(sc.negNames()) > 0, starNested(g.paths)})
 	switch {
 	case conflict:
 		c.Mode = "conflict"
@@ -562,7 +587,7 @@ func genMaskCase(rt *rapid.T) (maskCase, pathStats) {
 			}
 			if w.throughTD && k[fTypedefPath] {
 				q.Exp = -1
-				vt.Excluded(fTypedefPath)
+				excl(fTypedefPath)
 			}
 			c.PathQs = append(c.PathQs, q)
 		}
@@ -573,7 +598,7 @@ func genMaskCase(rt *rapid.T) (maskCase, pathStats) {
 			hasStructStar = hasStructStar || (s.star && s.kind == 0)
 		}
 		if hasStructStar && k[fGetPathStar] {
-			vt.Excluded(fGetPathStar)
+			excl(fGetPathStar)
 			continue
 		}
 		q := pathQ{Path: c.Paths[i], Exp: 1}
@@ -585,21 +610,69 @@ func genMaskCase(rt *rapid.T) (maskCase, pathStats) {
 		}
 		if throughTypedef(sc, g.root, p) && k[fTypedefPath] {
 			q.Exp = -1
-			vt.Excluded(fTypedefPath)
+			excl(fTypedefPath)
 		}
 		c.PathQs = append(c.PathQs, q)
 	}
 	return c, st
 }
 
-// genInvalid builds one path of a class that must be rejected.
+// reach lists a few valid paths that end at a value of the wanted shape kind.
+func (g *pgen) reach(want int) [][]pstep {
+	var out [][]pstep
+	var rec func(cur shape, steps []pstep, depth int)
+	rec = func(cur shape, steps []pstep, depth int) {
+		if len(out) >= 8 {
+			return
+		}
+		if cur.kind == want {
+			out = append(out, append([]pstep{}, steps...))
+		}
+		if depth == 0 {
+			return
+		}
+		var s pstep
+		switch cur.kind {
+		case kStruct:
+			for _, f := range g.usableFields(cur.st) {
+				s = pstep{kind: 0, fld: f}
+				rec(stepShape(g.sc, cur, s), append(steps, s), depth-1)
+			}
+			return
+		case kList:
+			s = pstep{kind: 1, ints: []int{0}}
+		case kIntMap:
+			s = pstep{kind: 2, ints: []int{1}}
+		case kStrMap:
+			s = pstep{kind: 2, isStr: true, strs: []string{"a"}}
+		case kScalarMap:
+			s = pstep{kind: 2, star: true}
+		default:
+			return
+		}
+		rec(stepShape(g.sc, cur, s), append(steps, s), depth-1)
+	}
+	rec(g.root, nil, 4)
+	return out
+}
+
+// genInvalid builds one path of a class that must be rejected.  Alternatives
+// behind a known finding are drawn like the others and then counted as excluded.
 func (g *pgen) genInvalid() (string, string) {
-	steps := g.genPath(rapid.IntRange(0, 3).Draw(g.rt, "bad_depth"), false, false)
+	// aim the prefix at a value of a drawn kind so that every class gets its share
+	want := rapid.IntRange(0, 5).Draw(g.rt, "bad_at_kind")
+	var steps []pstep
+	if cands := g.reach(want); len(cands) > 0 && rapid.IntRange(0, 3).Draw(g.rt, "bad_aimed") > 0 {
+		steps = rapid.SampledFrom(cands).Draw(g.rt, "bad_prefix")
+	} else {
+		steps = g.genPath(rapid.IntRange(0, 4).Draw(g.rt, "bad_depth"), false, false)
+	}
 	cur := g.shapeAfter(steps)
 	base := renderPath(steps)
-	type alt struct{ class, path string }
+	type alt struct{ class, path, fid string }
 	var alts []alt
-	add := func(class, tail string) { alts = append(alts, alt{class, base + tail}) }
+	add := func(class, tail string) { alts = append(alts, alt{class, base + tail, ""}) }
+	addF := func(fid, class, tail string) { alts = append(alts, alt{class, base + tail, fid}) }
 	isMap := cur.kind == kIntMap || cur.kind == kStrMap || cur.kind == kScalarMap
 	switch cur.kind {
 	case kStruct:
@@ -629,17 +702,13 @@ func (g *pgen) genInvalid() (string, string) {
 		for _, t := range []string{"[a]", `["1"]`, "[-1]", "[1.5]", "[1 ]"} {
 			add("malformed_index_not_integer", t)
 		}
-		if g.k[fLenientList] {
-			vt.Excluded(fLenientList)
-		} else {
-			for _, t := range []string{"[1", "[1,", "[*"} {
-				add("malformed_unclosed", t)
-			}
-			for _, t := range []string{"[1,,2]", "[,1]", "[,]", "[1,]"} {
-				add("malformed_empty_element", t)
-			}
-			add("malformed_star_mixed", "[1,*]")
+		for _, t := range []string{"[1", "[1,", "[*"} {
+			addF(fLenientList, "malformed_unclosed", t)
 		}
+		for _, t := range []string{"[1,,2]", "[,1]", "[,]", "[1,]"} {
+			addF(fLenientList, "malformed_empty_element", t)
+		}
+		addF(fLenientList, "malformed_star_mixed", "[1,*]")
 	}
 	if !isMap {
 		add("wrong_kind_key", "{1}")
@@ -649,49 +718,54 @@ func (g *pgen) genInvalid() (string, string) {
 		add("malformed_empty_key", "{}")
 		add("malformed_bare_key", "{a}")
 		add("malformed_garbage_after_bracket", "{*}x")
-		if !g.k[fLenientList] {
-			add("malformed_unclosed", "{*")
-		}
+		addF(fLenientList, "malformed_unclosed", "{*")
 	}
 	switch cur.kind {
 	case kStrMap:
 		add("key_kind_int_on_strmap", "{1}")
 		add("key_kind_int_on_strmap", `{"a",1}`)
-		if g.k[fBadQuote] {
-			vt.Excluded(fBadQuote)
-		} else {
-			add("malformed_unterminated_quote", `{"a}`)
-			add("malformed_unterminated_quote", `{"a`)
-		}
-		if !g.k[fLenientList] {
-			add("malformed_unclosed", `{"a"`)
-			add("malformed_missing_comma", `{"a""b"}`)
-		}
+		addF(fBadQuote, "malformed_unterminated_quote", `{"a}`)
+		addF(fBadQuote, "malformed_unterminated_quote", `{"a`)
+		addF(fLenientList, "malformed_unclosed", `{"a"`)
+		addF(fLenientList, "malformed_missing_comma", `{"a""b"}`)
 	case kIntMap:
 		add("key_kind_str_on_intmap", `{"a"}`)
 		add("key_kind_str_on_intmap", `{1,"a"}`)
-		if !g.k[fLenientList] {
-			add("malformed_unclosed", "{1")
-		}
+		addF(fLenientList, "malformed_unclosed", "{1")
 	case kScalarMap:
 		add("key_on_other_keyed_map", "{1}")
 		add("key_on_other_keyed_map", `{"a"}`)
 	}
 	add("malformed_trailing_dot", ".")
-	if g.k[fLenientRoot] {
-		vt.Excluded(fLenientRoot)
-	} else {
-		alts = append(alts, alt{"malformed_no_root", strings.TrimPrefix(base, "$")})
-		alts = append(alts, alt{"malformed_double_root", "$" + base})
-		if len(steps) > 0 {
-			alts = append(alts, alt{"malformed_root_inside", base + "$"})
+	alts = append(alts, alt{"malformed_no_root", strings.TrimPrefix(base, "$"), fLenientRoot})
+	alts = append(alts, alt{"malformed_double_root", "$" + base, fLenientRoot})
+	if len(steps) > 0 {
+		alts = append(alts, alt{"malformed_root_inside", base + "$", fLenientRoot})
+		alts = append(alts, alt{"malformed_no_root_name", strings.TrimPrefix(base, "$."), ""})
+	}
+	// class first, then one spelling of it
+	var classes []string
+	for _, a := range alts {
+		if !has(classes, a.class) {
+			classes = append(classes, a.class)
 		}
 	}
-	if len(steps) > 0 {
-		alts = append(alts, alt{"malformed_no_root_name", strings.TrimPrefix(base, "$.")})
+	for try := 0; try < 4; try++ {
+		class := rapid.SampledFrom(classes).Draw(g.rt, "bad_class")
+		var of []alt
+		for _, a := range alts {
+			if a.class == class {
+				of = append(of, a)
+			}
+		}
+		a := rapid.SampledFrom(of).Draw(g.rt, "bad")
+		if a.fid != "" && g.k[a.fid] {
+			excl(a.fid)
+			continue
+		}
+		return a.path, a.class
 	}
-	a := rapid.SampledFrom(alts).Draw(g.rt, "bad")
-	return a.path, a.class
+	return base + ".", "malformed_trailing_dot"
 }
 
 // ---------- soup ----------
@@ -821,7 +895,7 @@ func genSoupCase(rt *rapid.T) maskCase {
 		var p string
 		switch rapid.IntRange(0, 3).Draw(rt, "soup_kind") {
 		case 0: // raw bytes over the alphabet
-			bs := rapid.SliceOfN(rapid.SampledFrom([]byte(`$.[]{},*"\019aZ_ -`)), 0, 24).Draw(rt, "bytes")
+			bs := rapid.SliceOfN(rapid.SampledFrom([]byte(`$.[]{},*"\019aZ_ -`)), 1, 24).Draw(rt, "bytes")
 			p = string(bs)
 		case 1: // token soup, rooted
 			var b strings.Builder
@@ -851,8 +925,13 @@ func genSoupCase(rt *rapid.T) maskCase {
 			}
 			p = string(bs)
 		}
+		if id := knownPathShape(p, k, neg...); id == fLenientRoot {
+			// remove exactly the excluded shape: '$' after the first byte
+			excl(id)
+			p = p[:1] + strings.ReplaceAll(p[1:], "$", "")
+		}
 		if id := knownPathShape(p, k, neg...); id != "" {
-			vt.Excluded(id)
+			excl(id)
 			continue
 		}
 		c.Paths = append(c.Paths, p)
@@ -1063,7 +1142,7 @@ func genJSONCase(rt *rapid.T) jsonCase {
 		c.Doc = doc
 	}
 	if id := knownDocShape(c.Doc, k); id != "" {
-		vt.Excluded(id)
+		excl(id)
 		c.Doc = bytes.ReplaceAll(c.Doc, []byte("-"), []byte(""))
 	}
 	return c
